@@ -20,11 +20,6 @@ import common
 import c10_lib as L
 from common import Check, main_wrapper
 
-KEY_ROLL = "cascade-rolling-buffer-stale-row:overread>1+slack"
-KEY_TALL = "pad-bottom-lost:ofm-stripe-end>ifm-height"
-KEY_READ = "read-offset-multiplied-by-stride"
-KEY_READROWS = "read-offset-rows-not-clamped-to-slice"
-KEY_ODD = "upscaled-operator-odd-stripe"
 
 
 def ntp(h, s, k):
@@ -61,13 +56,19 @@ def part_a(ck):
             " ".join(str(int(x)) for x in list(pad) + list(skirt)))
         return [int(x) for x in pad], [int(x) for x in skirt]
 
-    def one_stripe(H, W, k, s, d, pad, skirt, OH, y0, y1, up, mode, w0=0, split_h=None, in_domain=True, tag=""):
-        """one transform call (rows), its create_padding, and the Spec lines"""
+    def one_stripe(H, W, k, s, d, pad, skirt, OH, y0, y1, up, mode, w0=0, split=None, in_domain=True, tag=""):
+        """one transform call, its create_padding, and the Spec lines (rows and columns).
+        `split = (off_h, off_w, TH, TW)`: the operator reads the slice [off_h, off_h+H) x [off_w, off_w+W) of a TH x TW tensor."""
         kd = (k - 1) * d + 1
-        OW = 4
+        ow_true = (W + pad[1] + pad[3] - kd) // s + 1 if up == 1 else W * up
+        OW = max(ow_true, 1)
         concat = [0, w0, 0, 0]
-        split = ([0, split_h, 0, 0], [1, H, W, 8]) if split_h is not None else None
-        args = ([0, y0 + w0, 0, 0], [1, y1 + w0, OW, 8], (s, s), skirt, [1, H, W, 8], True, concat, kd, split, up, False)
+        TH, TW, off_h, off_w = H, W, 0, 0
+        sp = None
+        if split is not None:
+            off_h, off_w, TH, TW = split
+            sp = ([0, off_h, off_w, 0], [1, H, W, 8])
+        args = ([0, y0 + w0, 0, 0], [1, y1 + w0, OW, 8], (s, s), skirt, [1, TH, TW, 8], True, concat, kd, sp, up, False)
         real = L.real_transform(*args)
         add("box " + " ".join(L.tin_tokens(*args)), real, ("box", tag))
         if not real.startswith("ok"):
@@ -76,17 +77,21 @@ def part_a(ck):
         v = list(map(int, real.split()[1:]))
         a, b, bx0, bx1, cpt, cpb = v[1], v[5], v[2], v[6], v[8], v[9]
         first, last = y0 == 0, y1 >= OH
-        cp_args = (False, pad, first, last, cpt, cpb, bx0, bx1, None, W, False)
+        cp_args = (False, pad, first, last, cpt, cpb, bx0, bx1, (off_w, W) if split is not None else None, TW, False)
         rp = L.real_create_padding(*cp_args)
-        add("cpad 0 %d %d %d %d %d %d %d %d %d %d - - %d 0" % (pad[0], pad[1], pad[2], pad[3], first, last, cpt, cpb, bx0, bx1, W),
-            rp, ("cpad", tag))
-        if not in_domain or split_h is not None:
+        add("cpad 0 %d %d %d %d %d %d %d %d %d %d %s %s %d 0" % (pad[0], pad[1], pad[2], pad[3], first, last, cpt, cpb, bx0, bx1,
+                                                                  off_w if split is not None else "-", W if split is not None else "-", TW), rp, ("cpad", tag))
+        if not in_domain:
             ck.count("spec_skipped_outside_reachable_domain")
             return
-        t, _l, bo, _r = map(int, rp.split())
-        spec.append(f"recv {k} {s} {d} {pad[0]} {H} 0 {up} {mode} {y0} {y1 - y0} {a} {b} {t} {bo}")
-        spec_meta.append(dict(H=H, k=k, s=s, d=d, pad=pad, skirt=skirt, OH=OH, y0=y0, y1=y1, up=up, mode=mode, a=a, b=b,
-                              pt=t, pb=bo, tag=tag, write_offset_h=w0))
+        t, le, bo, ri = map(int, rp.split())
+        meta = dict(H=H, W=W, k=k, s=s, d=d, pad=pad, skirt=skirt, OH=OH, OW=OW, y0=y0, y1=y1, up=up, mode=mode, a=a, b=b, pt=t, pb=bo,
+                    tag=tag, write_offset_h=w0, split=split, raw_pads=[cpt, cpb], ry0=y0, ry1=y1)
+        spec.append(f"recv {k} {s} {d} {pad[0]} {H} {off_h} {up} {mode} {y0} {y1 - y0} {a} {b} {t} {bo}")
+        spec_meta.append(dict(meta, axis="rows"))
+        if up == 1 and ow_true >= 1:
+            spec.append(f"recv {k} {s} {d} {pad[1]} {W} {off_w} 1 0 0 {OW} {bx0} {bx1} {le} {ri}")
+            spec_meta.append(dict(meta, axis="cols", H=W, y0=0, y1=OW, OH=OW + 1, a=bx0, b=bx1, pt=le, pb=ri))
 
     # --- exhaustive small scope, upscaling 1 ---------------------------------------------------------
     hmax = 12
@@ -99,7 +104,7 @@ def part_a(ck):
                     expl = sorted({(t, b) for t in {0, 1, half} for b in {0, 1, half} if t <= half and b <= half})
                     if not ck.thorough and kd > 5:
                         expl = [e for e in expl if e in ((0, half), (half, half), (1, 0))]
-                    modes = [(0, None), (1, None)] + [(2, (t, 0, b, 0)) for t, b in expl]
+                    modes = [(0, None), (1, None)] + [(2, (t, t, b, b)) for t, b in expl]
                     for mode, ex in modes:
                         pad, skirt = calc_pads(mode, k, s, d, H, 9, ex)
                         OH = (H + pad[0] + pad[2] - kd) // s + 1
@@ -119,7 +124,13 @@ def part_a(ck):
                         if OH >= 2:
                             one_stripe(H, 9, k, s, d, pad, skirt, OH, 0, OH - 1, 1, 0, w0=3, tag="concat")
                             one_stripe(H, 9, k, s, d, pad, skirt, OH, 1, OH, 1, 0, w0=5, tag="concat")
-                            one_stripe(H, 9, k, s, d, pad, skirt, OH, 1, OH, 1, 0, split_h=2, tag="split")
+                        # fused slice reads: the operator reads rows [off_h, off_h+H) / columns [off_w, off_w+9) of a larger tensor
+                        for split in ((2, 0, H + 2, 9), (0, 3, H + 3, 14), (3, 2, H + 5, 11)):
+                            stripes = [(y0, y1) for y0 in range(OH) for y1 in range(y0 + 1, OH + 1)]
+                            if OH > 4 and not ck.thorough:
+                                stripes = [(0, OH), (0, 1), (1, OH), (OH - 1, OH), (1, 3)]
+                            for y0, y1 in stripes:
+                                one_stripe(H, 9, k, s, d, pad, skirt, OH, y0, y1, 1, 0, split=split, tag="split")
     # --- upscaling 2: transpose convolution and nearest-neighbour resize ------------------------------
     for H in range(1, 7):
         for k in range(1, 9):
@@ -196,8 +207,15 @@ def part_a(ck):
             up = 1 if rm == resampling_mode.NONE else 2
             add(f"ifmarea {oh} {ow} {sy} {sx} {ah} {aw} {up} {int(rm == resampling_mode.NEAREST)}", f"{int(w)} {int(h)}")
     for ph, pw, pd, ch, cw in itertools.product(range(1, 13), (1, 7, 8), (1, 16, 17, 40), range(1, 13), (1, 8, 9)):
-        r = cascade_builder.rolling_buffer_shape(Shape4D([1, ph, pw, pd]), Shape4D([1, ch, cw, 3]))
-        add(f"rbs {ph} {pw} {pd} {ch} {cw}", f"{int(r.height)} {int(r.width)} {int(r.depth)}")
+        has_over = hasattr(cascade_builder, "ifm_box_overread")     # absent before the rolling-buffer repair
+        for over in ((0, 1, 2, 3) if pw == 1 and pd == 1 and has_over else (0,)):
+            r = cascade_builder.rolling_buffer_shape(Shape4D([1, ph, pw, pd]), Shape4D([1, ch, cw, 3]), *([over] if has_over else []))
+            add(f"rbs {ph} {pw} {pd} {ch} {cw} {over}", f"{int(r.height)} {int(r.width)} {int(r.depth)}")
+    from types import SimpleNamespace as NS_
+    for k_, s_, d_ in (itertools.product(range(1, 9), (1, 2, 3), (1, 2)) if hasattr(cascade_builder, "ifm_box_overread") else ()):
+        for sk in (None, (0, 0), (1, 0), (0, 2), (2, 2), (1, 3), (3, 5), (0, -1)):
+            cons = NS_(parent_op=NS_(attrs={"skirt": (sk[0], 9, sk[1], 9)} if sk is not None else {}), kernel=Kernel(k_, k_, s_, s_, d_, d_))
+            add("overread %s %s %d %d" % (sk[0] if sk else "-", sk[1] if sk else "-", s_, (k_ - 1) * d_ + 1), str(int(cascade_builder.ifm_box_overread(cons))))
     # addresses_for_rolling_buffer on a real Tensor object
     from ethosu.vela.data_type import DataType
     from ethosu.vela.errors import UnsupportedFeatureError
@@ -311,6 +329,18 @@ def part_b(ck):
         elif r < 0.2:      # malformed: step 0 / unsorted slices / slices not reaching the depth
             sl = rng.choice([[0, d, max(d - 1, 0)], [d, 0], [0, max(d - 1, 1)], sl])
             m = L.MockOp([1, OHt, W, 8], [1, OHt, W, d], 1, 1, 1, [0, 0, 0, 0], (rng.choice([0, step]), rng.choice([0, stepw])), sl, conv=True)
+        elif r < 0.35:     # fused slice read: a strided / padded operator over rows [off_h, off_h+H) x columns [off_w, off_w+W) of a bigger tensor
+            k_, s_ = rng.choice([1, 2, 3, 5]), rng.choice([1, 2, 3])
+            H_, W_ = rng.randint(k_, 14), rng.randint(k_, 9)
+            mm = conv_op(H_, W_, 8, k_, s_, 1, rng.randint(0, 1), 1, [0, 8])
+            if mm is None:
+                continue
+            off = [0, rng.randint(0, 4), rng.randint(0, 3), 0]
+            mm.read_offset, mm.read_shape = off, [1, H_, W_, 8]
+            mm.ifm_shape = [1, H_ + off[1] + rng.randint(0, 3), W_ + off[2] + rng.randint(0, 2), 8]
+            mm.step = (rng.randint(1, mm.ofm_shape[1]), mm.ofm_shape[2])
+            m = mm
+            ck.count("B_fused_slice_reads")
         else:
             m = L.MockOp([1, OHt, W, 8], [1, OHt, W, d], 1, 1, 1, [0, 0, 0, 0], (step, stepw), sl, conv=rng.random() < 0.5)
         real, ds = run([m], ("loops-random",))
@@ -399,7 +429,13 @@ def add_rolling(spec, spec_meta, real, ops, ds, cascade_builder, architecture_al
         w_, h_ = architecture_allocator.get_ifm_area_required(Shape4D([1, cm.step[0], cm.step[1], 8]), Kernel(kd, kd, cm.stride, cm.stride, 1, 1),
                                                               resampling_mode.NONE)
         c_h = min(int(h_), cm.ifm_shape[1])
-        shp = cascade_builder.rolling_buffer_shape(Shape4D([1, pm.step[0], pm.step[1], 8]), Shape4D([1, c_h, min(int(w_), cm.ifm_shape[2]), 8]))
+        from types import SimpleNamespace as NS_
+        if hasattr(cascade_builder, "ifm_box_overread"):
+            over_ = [int(cascade_builder.ifm_box_overread(NS_(parent_op=NS_(attrs={"skirt": tuple(cm.skirt)}),
+                                                              kernel=Kernel(cm.kernel_h, cm.kernel_h, cm.stride, cm.stride, cm.dilation, cm.dilation))))]
+        else:       # tree without the rolling-buffer repair: the buffer it really allocates is judged by the simulation
+            over_ = []
+        shp = cascade_builder.rolling_buffer_shape(Shape4D([1, pm.step[0], pm.step[1], 8]), Shape4D([1, c_h, min(int(w_), cm.ifm_shape[2]), 8]), *over_)
         stor.append(int(shp.height))
         sk = cm.skirt
         info.append(dict(p=pm.step[0], c=c_h, B=int(shp.height), s=cm.stride, kdil=kd, skirt_top=sk[0], skirt_bottom=sk[2],
@@ -418,23 +454,8 @@ def add_rolling(spec, spec_meta, real, ops, ds, cascade_builder, architecture_al
 
 
 def classify_rolling(bad_line, info):
-    """KEY_ROLL only when the read that failed goes through a rolling buffer whose consumer over-reads its box by more
-    than 1 + the round-up slack of the buffer (the exact hypothesis of Props.C10.rolling_sufficient_partial is violated)
-    and a LATER row of the same tensor was found in the slot."""
-    import re
-
-    m = re.match(r"bad i=(\d+) tensor=(\d+) row=(\d+) slot=(\d+) found=(\S+)", bad_line)
-    if not m:
-        return None
-    tensor, row, found = int(m.group(2)), int(m.group(3)), m.group(5)
-    if found == "-" or int(found) <= row:
-        return None
-    if tensor - 1 >= len(info) or tensor < 1:
-        return None
-    b = info[tensor - 1]
-    # only a buffer of exactly the documented size round_up(p + c, c) can be the recorded defect
-    if b["B"] == rup(b["p"] + b["c"], b["c"]) and b["over"] > 1 + b["slack"]:
-        return KEY_ROLL
+    """known-finding key for a rolling-buffer rejection of the real generator's order: none — the defects found here were repaired
+    (known_findings.txt `fixed:` lines), so every rejection is a VIOLATION"""
     return None
 
 
@@ -465,12 +486,8 @@ def stripe_requests(rec):
         oshape = rec["write_shape"] or rec["ofm_shape"]
         if ifm[1] != oshape[1] or ifm[2] != oshape[2]:
             return None, "elementwise_broadcast"
-    oshape = rec["write_shape"] or rec["ofm_shape"]
-    if rec["mode"] == 0 and rec["block"] in CONV_LIKE:
-        for ax, (k_, s_, d_, p0, p1) in ((1, (kh, sy, dy, ep[0], ep[2])), (2, (kw, sx, dx, ep[1], ep[3]))):
-            if (ifm[ax] + p0 + p1 - ((k_ - 1) * d_ + 1)) // s_ + 1 < oshape[ax]:
-                # the operator's tensors are reinterpreted views (softmax / argmax lowerings): kernel and shapes do not describe rows/columns
-                return None, "inconsistent_view"
+    if inconsistent_view(rec):
+        return None, "inconsistent_view"
     (os_, oe), (is_, ie) = rec["ofm_box"], rec["ifm_box"]
     rows = f"recv {kh} {sy} {dy} {ep[0]} {ifm[1]} {off[1]} {up} {rec['mode']} {os_[1] - wo[1]} {oe[1] - os_[1]} {is_[1]} {ie[1]} {hp[0]} {hp[2]}"
     cols = f"recv {kw} {sx} {dx} {ep[1]} {ifm[2]} {off[2]} {up} {rec['mode']} {os_[2] - wo[2]} {oe[2] - os_[2]} {is_[2]} {ie[2]} {hp[1]} {hp[3]}"
@@ -483,10 +500,24 @@ def special(rec):
                 or rec["tile_base"])
 
 
+def inconsistent_view(rec):
+    """the operator's tensors are reinterpreted views (softmax / argmax lowerings): kernel and shapes do not describe rows/columns"""
+    if rec["mode"] != 0 or rec["block"] not in CONV_LIKE or len(rec["ofm_box"][0]) != 4:
+        return False
+    off = rec["read_offset"] or [0, 0, 0, 0]
+    ifm = [min(a, b - o) for a, b, o in zip(rec["read_shape"], rec["ifm_shape"], off)] if rec["read_shape"] else rec["ifm_shape"]
+    ep = rec["explicit_padding"] or [0, 0, 0, 0]
+    oshape = rec["write_shape"] or rec["ofm_shape"]
+    for ax, (k_, s_, d_, p0, p1) in ((1, (rec["kh"], rec["sy"], rec["dy"], ep[0], ep[2])), (2, (rec["kw"], rec["sx"], rec["dx"], ep[1], ep[3]))):
+        if (ifm[ax] + p0 + p1 - ((k_ - 1) * d_ + 1)) // s_ + 1 < oshape[ax]:
+            return True
+    return False
+
+
 def rows_read(rec):
     """stored rows [ra, rb) the hardware touches (implicit extent), for the rolling-buffer simulation"""
     a, b = rec["ifm_box"][0][-3] if len(rec["ifm_box"][0]) >= 3 else 0, rec["ifm_box"][1][-3] if len(rec["ifm_box"][1]) >= 3 else 1
-    if rec["block"] in CONV_LIKE and rec["hw_pad"] is not None and len(rec["ofm_box"][0]) == 4 and not special(rec):
+    if rec["block"] in CONV_LIKE and rec["hw_pad"] is not None and len(rec["ofm_box"][0]) == 4 and not special(rec) and not inconsistent_view(rec):
         up = 1 if rec["mode"] == 0 else 2
         h = rec["ofm_box"][1][1] - rec["ofm_box"][0][1]
         ext = (h - 1) * rec["sy"] + (rec["kh"] - 1) * rec["dy"] + 1 - rec["hw_pad"][0] - rec["hw_pad"][2]
@@ -502,7 +533,7 @@ def part_c(ck):
         [("known_pad_tall", 0, 0), ("known_odd_upscale", 0, 0)]
     n = 320 if not ck.thorough else 8000
     profiles = ["cascade_chain", "c10_pad_tall", "cascade", "c10_pool_chain", "c10_upscale", "c10_slice", "c10_dilated", "mixed",
-                "cascade_chain", "elementwise", "weights", "c10_pool_chain"]
+                "cascade_chain", "elementwise", "weights", "c10_pool_chain", "c10_slice_upscale"]
     outs = pipe_common.run_corpus(ck, n, profiles=profiles, want={"extra": L.extract})
     reqs, owners = [], []      # Lean Spec requests on real artefacts
     corr, corr_real, corr_owner = [], [], []   # model == real (issue order, create_padding)
@@ -595,7 +626,7 @@ def part_c(ck):
                     if len(bf["stor"]) == 4 and bf["stor"][1] >= bf["full_h"]:
                         ck.count("C_buffer_stored_in_full")     # not a rolling buffer (the tensor is at most as tall as p + c)
                     elif len(bf["stor"]) == 4:
-                        corr.append("rbs %d %d %d %d %d" % (bf["p"][0], bf["p"][1], bf["p"][2], bf["c"][0], bf["c"][1]))
+                        corr.append("rbs %d %d %d %d %d %d" % (bf["p"][0], bf["p"][1], bf["p"][2], bf["c"][0], bf["c"][1], bf["over"]))
                         corr_real.append("%d %d %d" % (bf["stor"][1], bf["stor"][2], bf["stor"][3]))
                         corr_owner.append(("rbs", o, si, ci))
     ans = ck.model(reqs) if reqs else []
@@ -617,25 +648,7 @@ def odd_stripe(rec):
 
 
 def classify_net_stripe(rec, axis, verdict):
-    """known-finding key for a receptive/coverage rejection of a compiled stripe"""
-    ax = 1 if axis == "rows" else 2
-    stride = rec["sy"] if axis == "rows" else rec["sx"]
-    if rec["read_offset"] is not None and rec["read_offset"][ax] != 0 and (stride > 1 or rec["mode"] != 0) and rec["block"] in CONV_LIKE:
-        # the read offset of a fused slice is added to the OFM coordinate before the scaling by the stride / upscaling factor
-        return KEY_READ
-    if axis == "rows" and rec["mode"] != 0 and odd_stripe(rec):
-        return KEY_ODD
-    if axis == "rows" and rec["read_offset"] is not None and rec["block"] in CONV_LIKE and rec["explicit_padding"] is not None:
-        off, shp, full = rec["read_offset"][1], rec["read_shape"][1], rec["ifm_shape"][1]
-        ep = rec["explicit_padding"]
-        if (off > 0 and ep[0] > 0) or (off + shp < full and (ep[2] > 0 or (rec["skirt"] or [0] * 4)[2] > 0)):
-            # rows: the IFM box is clamped to the whole tensor, not to the slice the operator reads (columns are clamped to the slice)
-            return KEY_READROWS
-    if axis == "rows" and rec["mode"] == 0:
-        ifm = rec["ifm_shape"]
-        wo = rec["write_offset"] or [0, 0, 0, 0]
-        if rec["ofm_box"][1][1] - wo[1] > ifm[1] and not (rec["first"] and rec["last"]):
-            return KEY_TALL
+    """known-finding key for a receptive/coverage rejection of a compiled stripe: none (all recorded defects were repaired)"""
     return None
 
 
@@ -661,22 +674,7 @@ def classify_net_rolling(bad_line, recs):
             B = cons["ifm_B"]
             info = dict(p=p, q=q, c=c, B=B, s=cons["sy"], kdil=kdil, skirt_top=cons["skirt"][0], skirt_bottom=cons["skirt"][2],
                         over=cons["sy"] + cons["skirt"][0] + cons["skirt"][2] - kdil, slack=B - p - c, consumer=cons["name"])
-    ifm = cons["ifm_shape"]
-    wo = cons["write_offset"] or [0, 0, 0, 0]
-    rk = classify_net_stripe(cons, "rows", "")
-    if rk in (KEY_READ, KEY_READROWS, KEY_ODD):
-        # the rows addressed are wrong because of the fused slice read (same defect as the receptive-field rejection of this stripe)
-        return rk, info
-    if (cons["mode"] == 0 and cons["block"] in CONV_LIKE and row >= ifm[1] and cons["ofm_box"][1][1] - wo[1] > ifm[1]
-            and not (cons["first"] and cons["last"])):
-        # the row read lies below the last IFM row: the lost pad_bottom of an OFM stripe that ends below the IFM
-        return KEY_TALL, info
-    if info is None or found == "-" or int(found) <= row:
-        return None, info
-    if info["B"] < cons["ifm_shape"][1] and info["B"] == rup(info["p"] + info["c"], info["c"]) and info["over"] > 1 + info["slack"]:
-        return KEY_ROLL, info
     return None, info
-
 
 def report_c(ck, Cp):
     programs, rejected, unknown = 0, 0, 0
@@ -727,11 +725,7 @@ def report_c(ck, Cp):
 
 
 def classify_stripe_failure(m):
-    """known-finding key for a Spec rejection of a single stripe, or None.
-    KEY_TALL: upscaling 1 and the OFM stripe ends below the last IFM row (`end_coord[-3]` is clipped to the IFM height
-    before `total_stride` and the pad_bottom condition are computed) — reached with a fused PAD (explicit padding)."""
-    if m["up"] == 1 and m["y1"] > m["H"]:
-        return KEY_TALL
+    """known-finding key for a Spec rejection of a single stripe: none (all recorded defects were repaired)"""
     return None
 
 
@@ -802,19 +796,37 @@ def replay(ck, path):
 
 
 def main():
-    if os.environ.get("PYTHONHASHSEED") != "0":
-        # pipe_common seeds its per-network generator with hash(profile): pin the string hash so a run replays
-        os.execve(sys.executable, [sys.executable] + sys.argv, dict(os.environ, PYTHONHASHSEED="0"))
     ck = Check("C10", "proof")
     ck.lean_stage(["VelaVerif.Props.C10"])
     if ck.replay_arg:
         replay(ck, ck.replay_arg)
     common.setup_repo_path()
-    A = part_a(ck)
-    report_a(ck, A)
-    Bp = part_b(ck)
-    report_b(ck, Bp)
+    if os.environ.get("C10_DUMP_NETS"):
+        A = Bp = None
+    else:
+        A = part_a(ck)
+    if os.environ.get("C10_DUMP"):
+        import json
+        json.dump({k: A[k] for k in ("reqs", "reals", "spec", "spec_out", "spec_meta")}, open(os.environ["C10_DUMP"], "w"))
+        print("dumped", len(A["reqs"]), len(A["spec"]))
+        sys.exit(0)
+    if A is not None:
+        report_a(ck, A)
+        Bp = part_b(ck)
+        report_b(ck, Bp)
     Cp = part_c(ck)
+    if os.environ.get("C10_DUMP_NETS"):
+        import json
+        nets = {}
+        for o in Cp["outs"]:
+            nets[f"{o['profile']}/{o['seed']}/{o['idx']}"] = {"status": o.get("status"), "opts": o.get("opts"),
+                                                              "sha": [st["words_sha1"] for st in (o.get("extra") or [])], "bad": []}
+        for (kind, x, o, si, ri), a in zip(Cp["owners"], Cp["ans"]):
+            if not (a.startswith("recv=1 cov=1") or a in ("1", "ok")):
+                nets[f"{o['profile']}/{o['seed']}/{o['idx']}"]["bad"].append(kind + ":" + a[:80])
+        json.dump(nets, open(os.environ["C10_DUMP_NETS"], "w"))
+        print("dumped", len(nets), "networks")
+        sys.exit(0)
     programs, rejected, cdis = report_c(ck, Cp)
     # evidence ------------------------------------------------------------------------------------
     a_nontrivial = len({A["spec"][i] for i, m in enumerate(A["spec_meta"]) if m.get("tiles") or m["y1"] - m["y0"] < m["OH"]})
